@@ -38,6 +38,7 @@ class C10(MsgProp):
             if thorough or r.random() < 0.25:
                 for S in ([5], [64, 1], [2, 33, 17] if thorough else [9, 3]):
                     for G in (pool[:1], pool[-2:], [pool[0], pool[len(pool) // 2], pool[-1]] if thorough else pool[:2]):
+                        G = list(dict.fromkeys(G))      # small tables: the three picks may coincide
                         full = [(s, x) for s in S for x in G]
                         for mask in range(1, 1 << len(full)):
                             C = [c for i, c in enumerate(full) if mask >> i & 1]
@@ -238,6 +239,14 @@ class C18(Prop):
             for x in recl:
                 for y in recl:
                     yield (f"SIGCMP {gnss} {x[0]} {x[1]} {y[0]} {y[1]}", "cmp-recognised", True)
+            # unrecognised neighbours of every recognised descriptor, both argument orders
+            for x in recl:
+                attrs = list(range(0x41, 0x5B)) + [0, 0x20, 0x61, 0xFF, 0x100]
+                for b in sorted({0, max(0, x[0] - 1), x[0], x[0] + 1, 255}):
+                    for a in (attrs if (ctx.tier == "thorough" or b <= x[0]) else attrs[::5]):
+                        if (b, a) not in rec:
+                            yield (f"SIGCMP {gnss} {x[0]} {x[1]} {b} {a}", "cmp-neighbour", True)
+                            yield (f"SIGCMP {gnss} {b} {a} {x[0]} {x[1]}", "cmp-neighbour", True)
             for _ in range(300 if ctx.tier == "quick" else 5000):
                 x = r.choice(recl) if r.random() < 0.5 else (r.randrange(256), r.randrange(0x250))
                 y = r.choice(recl) if r.random() < 0.5 else (r.randrange(256), r.randrange(0x250))
@@ -413,6 +422,17 @@ class C19(Prop):
                     running.remove(item)
                     free.append(slot)
             time.sleep(0.05)
+        # a failing configuration is re-run once on its own: concurrent first builds of dependency build
+        # scripts (feature probes through a shared temporary path) were seen to collide; a real failure
+        # is deterministic and fails again
+        retried = 0
+        for i, (cfg, rc, err) in enumerate(results):
+            if rc != 0:
+                p = start(cfg, 0)
+                out, err2 = p.communicate()
+                retried += 1
+                results[i] = (cfg, p.returncode, err2.decode(errors="replace")[-1500:])
+        ctx.cov["configurations_retried"] = retried
         fails = 0
         classes = {}
         for cfg, rc, err in results:
@@ -505,6 +525,8 @@ class FeatDriver:
         with ThreadPoolExecutor(max_workers=slots) as ex:
             for res in ex.map(run_group, range(slots)):
                 for f, (lines, err) in res:
+                    if lines is None:
+                        lines, err = self.build_run(f, 1, corpus)      # once more, on its own
                     if lines is None:
                         out.append((f, False, "driver does not build: " + err)); continue
                     num = int(f[3:])
